@@ -402,3 +402,23 @@ Lemma flow_bind_twin :
   pf_params k_flow_sync_bind = pf_params k_flow_async_bind /\
   pf_body k_flow_sync_bind = map unwrap_sync_stmt (pf_body k_flow_async_bind).
 Proof. split; reflexivity. Qed.
+
+(* the anonymous bind returns from inside `if not self._auth:`, so run_self does not see the client afterwards (flow_async_bind gives the
+   state only when auth = true).  Here: the statements up to and including `bind_ack = await self._send_pdu(bind, BindAck)` -- after which
+   the function returns bind_ack at once -- leave the client in the model's final state *)
+Lemma flow_async_bind_anonymous_state fuel (legs : list leg) srv ids :
+  match bind_run false legs srv ids with
+  | (Ok rs, s) => exists env' c' fl tk,
+      exec_block WH fuel (firstn 4 (pf_body k_flow_async_bind)) [("self", VO (OSelf (conn0 false legs srv))); ("contexts", VL (map ctxv ids))]
+        = Ok (Next env')
+      /\ lookup "self" env' = Some (VO (OSelf c')) /\ cn_st c' = s /\ lookup "bind_ack" env' = Some (VO (OAck false rs fl tk))
+  | (Raise e, _) =>
+      exec_block WH fuel (firstn 4 (pf_body k_flow_async_bind)) [("self", VO (OSelf (conn0 false legs srv))); ("contexts", VL (map ctxv ids))]
+        = Raise e
+  end.
+Proof.
+  rewrite bind_run_eq. cbv zeta. cbn [negb firstn pf_body k_flow_async_bind].
+  cbn. rewrite ids_of_ctxv. cbn. unfold create_bind_hs. cbn.
+  destruct (send_pdu _ EBindAck _) as [[[[rs fl] tk]|e] s1] eqn:Es; cbn; [|reflexivity].
+  eexists. eexists. exists fl, tk. split; [reflexivity|]. cbn. auto.
+Qed.
